@@ -197,6 +197,14 @@ def plate_carree_sampler(data):
     lat0 = HALFPI - 0.5 / dy  # latitudes of the centers of the pixels with iy = 0
 
     def vec2pix(lon, lat):
+        # The points asked about are the exact values of the numbers passed in.
+        # NumPy keeps arithmetic on float32 / float16 arrays at that precision
+        # (the constants here are plain Python floats), which moves a point by up
+        # to ~2e-7 rad (float32) or ~2e-3 rad (float16): more than a pixel of a
+        # wide map. Work in double precision whatever the type of the request.
+        lon = np.asarray(lon, dtype=np.float64)
+        lat = np.asarray(lat, dtype=np.float64)
+
         lon = (lon + np.pi) % TWOPI - np.pi  # ensure in range [-pi, pi]
         ix = (lon0 - lon) * dx
         ix = np.round(ix).astype(int)
@@ -333,6 +341,11 @@ def plate_carree_planet_sampler(data):
     lat0 = HALFPI - 0.5 / dy  # latitudes of the centers of the pixels with iy = 0
 
     def vec2pix(lon, lat):
+        # Work in double precision whatever the type of the request (see
+        # plate_carree_sampler).
+        lon = np.asarray(lon, dtype=np.float64)
+        lat = np.asarray(lat, dtype=np.float64)
+
         lon = (lon + np.pi) % TWOPI - np.pi  # ensure in range [-pi, pi]
         ix = (lon - lon0) * dx
         ix = np.round(ix).astype(int)
@@ -379,6 +392,11 @@ def plate_carree_planet_zeroleft_sampler(data):
     lat0 = HALFPI - 0.5 / dy  # latitudes of the centers of the pixels with iy = 0
 
     def vec2pix(lon, lat):
+        # Work in double precision whatever the type of the request (see
+        # plate_carree_sampler).
+        lon = np.asarray(lon, dtype=np.float64)
+        lat = np.asarray(lat, dtype=np.float64)
+
         lon = lon % TWOPI  # ensure in range [0, 2pi]
         ix = (lon - lon0) * dx
         ix = np.round(ix).astype(int)
@@ -422,6 +440,11 @@ def plate_carree_zeroright_sampler(data):
     lat0 = HALFPI - 0.5 / dy  # latitudes of the centers of the pixels with iy = 0
 
     def vec2pix(lon, lat):
+        # Work in double precision whatever the type of the request (see
+        # plate_carree_sampler).
+        lon = np.asarray(lon, dtype=np.float64)
+        lat = np.asarray(lat, dtype=np.float64)
+
         lon = lon % TWOPI  # ensure in range [0, 2pi]
         ix = (lon0 - lon) * dx
         ix = np.round(ix).astype(int)
@@ -856,6 +879,11 @@ class ChunkedPlateCarreeSampler(object):
         lat0 = HALFPI - 0.5 / dy  # latitudes of the centers of the global pixels with iy = 0
 
         def plate_carree_planet_sampler(lon, lat):
+            # Work in double precision whatever the type of the request (see
+            # plate_carree_sampler).
+            lon = np.asarray(lon, dtype=np.float64)
+            lat = np.asarray(lat, dtype=np.float64)
+
             lon = (lon + np.pi) % TWOPI - np.pi  # ensure in range [-pi, pi]
             ix = (lon - lon0) * dx
             ix = np.clip(np.round(ix).astype(int), 0, gnx - 1) - cx
